@@ -211,10 +211,13 @@ Definition incr_inline (c : cfg) (delta : Z) (default : option Z) : bool :=
   end.
 
 (* ------------------------------------------------------------------ lock-free lookups *)
-(* get on its fast path (statistics off, no access bookkeeping): one SELECT on the committed state, then
-   the file (if the row has one) is opened outside any transaction *)
-Definition r_get (c : cfg) (k : pyval) (rd : bool) (now : Z) : crop :=
-  {| r_select := fun d =>
+(* get on its fast path (statistics off, no access bookkeeping): a SELECT on the committed state, then
+   the file (if the row has one) is opened outside any transaction; when the file is gone the code SELECTs again
+   (Gen_Sql.get_retries_after_missing_file, read off the source) and gives up only when the row is gone or the same
+   file is missing twice.  `again = false` is the reader the code had before: a missing file was reported as a miss. *)
+Definition r_get_with (again : bool) (c : cfg) (k : pyval) (rd : bool) (now : Z) : crop :=
+  {| r_again := again;
+     r_select := fun d =>
        match put (c_codec c) k with
        | PutRaise => SelMiss (RRaise EBind)
        | PutOk dbk raw =>
@@ -228,9 +231,12 @@ Definition r_get (c : cfg) (k : pyval) (rd : bool) (now : Z) : crop :=
              end
          end
        end |}.
+Definition r_get := r_get_with get_retries_after_missing_file.
+Definition r_get_old := r_get_with false.
 
 Definition r_contains (c : cfg) (k : pyval) (now : Z) : crop :=
-  {| r_select := fun d =>
+  {| r_again := false;          (* __contains__ opens no file *)
+     r_select := fun d =>
        match put (c_codec c) k with
        | PutRaise => SelMiss (RRaise EBind)
        | PutOk dbk raw =>
@@ -246,7 +252,7 @@ Definition run_seq (w : cwop) (s : st) : st * result :=
   then (fs_remove (fs_remove (bo_db o) (map Some (bo_cleanup o))) (map Some (ofile (bo_fetch o))), bo_res o)
   else (s, bo_res o).
 
-(* SELECT ; open the file *)
+(* SELECT ; open the file  (alone, a lookup that finds the file missing finds the same file missing again) *)
 Definition run_rop (r : crop) (s : st) : result :=
   match r_select r s with
   | SelMiss x => x
